@@ -754,6 +754,19 @@ fn step_pop_direct_8_i1o2() { pop_direct_body::<8, 1, 2>(3) }
 #[kani::unwind(18)]
 fn step_pop_indirect_4_i1o1() { pop_indirect_body::<4, 1, 1>(3) }
 
+// inputs-only indirect chains: the last table entry carries neither NEXT nor WRITE, so anything that derives a
+// buffer's role from the stored flags instead of from its position confuses exactly this shape (seed s21)
+// (quick for C04 only, to keep the other quick tiers inside their time budget; i3o0 serves all four in thorough)
+// @harness props=C04 tier=quick timeout=900
+#[kani::proof]
+#[kani::unwind(18)]
+fn step_pop_indirect_4_i2o0() { pop_indirect_body::<4, 2, 0>(3) }
+
+// @harness props=C03,C02,C04,C05 tier=thorough timeout=3600
+#[kani::proof]
+#[kani::unwind(18)]
+fn step_pop_indirect_4_i3o0() { pop_indirect_body::<4, 3, 0>(3) }
+
 // @harness props=C03,C02,C04,C05 tier=thorough timeout=3600
 #[kani::proof]
 #[kani::unwind(18)]
